@@ -60,8 +60,15 @@ def buffer_width(body, op):
         return int(m.group(1)) if m else None
     seen = set()
     cur = pl
-    for _ in range(12):
+    for _ in range(16):
         if cur["p"]:
+            # the payload of an Option built from one value (`Some(x)` of an unrolled `for x in [..]`): that value
+            pk = [proj_key(p) for p in cur["p"]]
+            ds0 = body.defs(cur["l"])
+            if pk == ["as Some", ".0"] and len(ds0) == 1 and ds0[0][2] == "assign" and ds0[0][3]["rv"]["r"] == "agg" and ds0[0][3]["rv"].get("variant") == "Some" \
+                    and ds0[0][3]["rv"]["ops"] and op_place(ds0[0][3]["rv"]["ops"][0]) is not None:
+                cur = op_place(ds0[0][3]["rv"]["ops"][0])
+                continue
             break
         l = cur["l"]
         if l in seen:
